@@ -6,7 +6,7 @@ tools/dbgrun.py). Used to obtain replays of rare interleavings on the unchanged 
 import json,sys,subprocess,os,tempfile,concurrent.futures,shutil
 knobs=json.loads(sys.argv[1]); n=int(sys.argv[2]); base=int(sys.argv[3]); world=sys.argv[4]; prop=sys.argv[5]
 park=float(sys.argv[6]) if len(sys.argv)>6 else 0.06
-bdir=subprocess.run(['/verif/bin/simrun','-build-only'],capture_output=True,text=True,cwd='/verif').stdout.strip().splitlines()[-1]
+bdir=subprocess.run(['/verif/bin/simrun','-build-only']+(['-repo',__import__('os').environ['HUNT_REPO']] if __import__('os').environ.get('HUNT_REPO') else []),capture_output=True,text=True,cwd='/verif').stdout.strip().splitlines()[-1]
 env={'GOMAXPROCS':'1','GOGC':'off','GODEBUG':'asyncpreemptoff=1,randautoseed=0','PATH':'/usr/bin:/bin','HOME':'/tmp'}
 def one(i):
     seed=(base*1000003+i*7919+12345)&0x7fffffffffffffff
